@@ -279,7 +279,10 @@ def cmp_analysis(ctx, o, r, fam, where, kw, rtol=1e-8):
         ok &= ctx.close(r.e_dvalue[en], o.e_dvalue[en], fam + ':analysis:e_dvalue', where + ' ' + en, rtol=rtol, scale=abs(o.dvalue), detail=det)
         if en in o.e_tauint:
             ok &= ctx.close(r.e_tauint[en], o.e_tauint[en], fam + ':analysis:tauint', where + ' ' + en, rtol=rtol, atol=1e-9, detail=det)
-            ok &= ctx.close(r.e_dtauint[en], o.e_dtauint[en], fam + ':analysis:dtauint', where + ' ' + en, rtol=10 * rtol, atol=1e-8, detail=det)
+            # dtauint = 2 tau sqrt((W + 1/2 - tau) / N): the square is linear in tau, the root is not Lipschitz where the bracket
+            # cancels (a rounding-level change of tau moves dtauint by ~sqrt(eps)); therefore the squares are compared
+            ok &= ctx.close(float(r.e_dtauint[en]) ** 2, float(o.e_dtauint[en]) ** 2, fam + ':analysis:dtauint', where + ' ' + en, rtol=20 * rtol,
+                            atol=1e-9 * max(1.0, float(o.e_tauint[en]) ** 2), detail=det)
             ok &= ctx.require(r.e_windowsize[en] == o.e_windowsize[en], fam + ':analysis:window',
                               {'where': where, 'ens': en, 'got': r.e_windowsize[en], 'exp': o.e_windowsize[en]})
             ok &= ctx.close(np.asarray(r.e_rho[en]), np.asarray(o.e_rho[en]), fam + ':analysis:rho', where + ' ' + en, rtol=rtol, atol=1e-8, detail=det)
@@ -526,6 +529,7 @@ class Family:
         self.cov_extreme = self.cov_extreme and bool(self.cvs)
         self.mags = mags
         self.spectators = 0
+        self.centered = 0
 
     def magnitude(self):
         rng = self.rng
@@ -592,6 +596,10 @@ class Family:
                 o = o + lin
             else:
                 o = o * comps[0] + lin
+        if ens and rng.random() < 0.08:
+            # degenerate value: the central value is exactly 0.0 while the fluctuations are not (o - <o>)
+            o = o - o.value
+            self.centered += 1
         mag = self.magnitude() if mag is None else mag
         if mag != 1.0:
             o = o * mag
